@@ -133,6 +133,15 @@ def run_prog(case) -> Outcome:
         for sp, t in run.tasks.items():
             if run.owner_of.get(sp) is not None and not t.done():
                 out.violate("children", f"C07.children/spawned-task-still-running/{phase}{extra}", f"{sp}; inject={k}")
+        # ... and they are cancelled when the cancellation arrives, not awaited until they finish on their own
+        # (exact virtual time, same oracle as C06); only judged when the cancellation itself was not lost
+        if res["outcome"] == "cancelled":
+            from hv.props import c06
+
+            probe = Outcome()
+            c06._late_tasks(case, run, {**res, "inject_time": res["inject_time"]}, probe, k, "cancel")
+            for v in probe.violations:
+                out.violate("children", f"C07.children/spawned-task-awaited-instead-of-cancelled/{phase}{extra}", v["detail"])
     out.classes = sorted(classes)
     out.counts = {"executions": runs}
     out.nontrivial = bool(classes & {"phase-enter", "phase-body", "phase-exit"})
@@ -146,6 +155,7 @@ def run_check(case) -> Outcome:
     obs: list = []
     callback_result: dict = {}
     seen_request = {"v": False}
+    must_deliver = {"v": False}
 
     async def main(loop):
         other_result: dict = {}
@@ -170,14 +180,17 @@ def run_check(case) -> Outcome:
                         ctx.cancel()
                         pending += 1
                         seen_request["v"] = True
+                        must_deliver["v"] = True
                     elif step == "ext_cancel":
                         me.cancel()  # same effect as a cancel from another task, delivered at the next suspension
                         pending += 1
                         seen_request["v"] = True
+                        must_deliver["v"] = True
                     elif step == "uncancel":
                         if pending > 0:
                             me.uncancel()
                             pending -= 1
+                            must_deliver["v"] = False  # whether a taken-back request is still delivered is asyncio's business
                     elif step == "check":
                         expect = pending > 0
                         try:
@@ -187,7 +200,13 @@ def run_check(case) -> Outcome:
                             raised = True
                         obs.append(("check", expect, raised, me.cancelling()))
                     elif step == "yield":
+                        expect_delivery = must_deliver["v"]
+                        must_deliver["v"] = False
                         await asyncio.sleep(0)
+                        if expect_delivery:
+                            # a cancellation request (ctx.cancel() or task.cancel()) must be delivered at the next
+                            # suspension point; reaching this line means it was not
+                            obs.append(("undelivered", True, False, me.cancelling()))
                     elif step == "other":
                         t = loop.create_task(other_task())
                         await asyncio.shield(t)
@@ -200,6 +219,7 @@ def run_check(case) -> Outcome:
                         await stack.pop().__aexit__(None, None, None)
                 except asyncio.CancelledError:
                     # the script's own 'catch': delivery of a request; the request stays pending until uncancel()
+                    must_deliver["v"] = False
                     obs.append(("caught", None, None, me.cancelling()))
             while stack:
                 try:
@@ -240,6 +260,8 @@ def run_check(case) -> Outcome:
             )
         if kind == "other" and raised:
             out.violate("check", "C07.check/raises-in-unrelated-task", f"script={script}")
+        if kind == "undelivered":
+            out.violate("request", "C07.request/cancellation-request-not-delivered", f"script={script}: task.cancelling()={cancelling}")
     out.classes = ["check-after-request"] if any(k == "check" and e for k, e, _, _ in obs) else []
     out.nontrivial = bool(out.classes)
     return out
@@ -251,9 +273,26 @@ def run_case(case) -> Outcome:
 
 def strategy(tier):
     progs = conc.program(disp_faults=True, body_raises=True).map(lambda p: {"kind": "prog", **p, "inject": None})
-    steps = st.sampled_from(["ctx_cancel", "ext_cancel", "uncancel", "check", "check", "yield", "other", "enter", "leave"])
+    steps = st.sampled_from(["ctx_cancel", "ctx_cancel", "ext_cancel", "uncancel", "check", "check", "yield", "yield", "other", "enter", "leave"])
     checks = st.builds(lambda s: {"kind": "check", "script": s}, st.lists(steps, min_size=1, max_size=10))
     return st.one_of(progs, progs, checks)
+
+
+STEPS = ["ctx_cancel", "ext_cancel", "uncancel", "check", "yield", "other", "enter", "leave"]
+
+
+def enumerate_cases(tier):
+    """every check_cancellation script up to length 4 (quick) / 5 (thorough)"""
+    import itertools
+
+    n = 4 if tier == "quick" else 5
+    for length in range(1, n + 1):
+        for script in itertools.product(STEPS, repeat=length):
+            if "check" in script or "yield" in script:
+                yield {"kind": "check", "script": list(script)}
+
+
+EXHAUSTIVE_MEANS = "part B only: every script over the 8 step kinds up to length 4 (quick) / 5 (thorough) that contains a check or a suspension"
 
 
 def budget(tier):
